@@ -4,7 +4,7 @@ for f in sys.argv[1:]:
     v=d['violation']
     print("=====",f, v.get('oracle'), v.get('kind'), d.get('tags'))
     for o in d.get('ops',[]): print("  ",json.dumps(o))
-    for k in ('cls','format','pipeline','pipelines','class_pipelines','documents','files','validators','exclusions','worlds','refs','dangling','schedule','filters','faults','disabled','knobs','configs','specs'):
+    for k in ('kind','cls','format','transformation','pipeline','pipelines','class_pipelines','documents','files','validators','exclusions','worlds','refs','dangling','schedule','filters','faults','disabled','knobs','configs','specs'):
         if d.get(k): print(f"  {k}:",json.dumps(d[k])[:1200])
     g,w=json.dumps(v.get('got')),json.dumps(v.get('want'))
     i=next((i for i,(a,b) in enumerate(zip(g,w)) if a!=b),min(len(g),len(w)))
